@@ -858,6 +858,41 @@ def check_eintr_stdio(ck, prog):
         raise AnalysisBroken("C17-EINTR: no `ferror()` ... `errno == EINTR` retry found (read_name expected)")
 
 
+def check_tuklib_exit(ck, prog, rule="C17-STATUS"):
+    """tuklib_exit() is where a deferred write error of standard output (ferror/fclose) becomes the exit status.  The store
+    `status = err_status` must not depend on show_error (xz passes show_error = 0 for -qq): silence concerns the message,
+    never the status."""
+    f = prog.fn("tuklib_exit", "tuklib_exit.c", target="xz")
+    ck.saw_function(f)
+    stores = {b.id for b, i, e in f.iter_elems() for (l, r, op, n) in ex.writes(e)
+              if ex.show(l) == "status" and r is not None and ex.show(r) == "err_status"}
+    if not stores:
+        raise AnalysisBroken("tuklib_exit: the store status = err_status was not found")
+    barrier = {b.id for b in f.blocks.values() if b.term and "cond" in b.term and "show_error" in ex.show(b.term["cond"])}
+    def stream_blocks(name):
+        return {b.id for b, i, e in f.iter_elems() for c in ex.calls(e, into_refs=False)
+                if c.get("fn") in ("fclose", "ferror") and c["args"] and ex.show(c["args"][0]) == name}
+    start, stop = stream_blocks("stdout"), stream_blocks("stderr")
+    if not start:
+        raise AnalysisBroken("tuklib_exit: fclose(stdout) not found")
+    # from the close of stdout to the handling of stderr; a block that tests show_error is entered (its statements run
+    # before the test) but not left
+    seen, st = set(), list(start)
+    while st:
+        x = st.pop()
+        if x is None or x in seen or x in stop:
+            continue
+        seen.add(x)
+        if x not in barrier:
+            st.extend(f.blocks[x].succs)
+    ok = bool(stores & seen)
+    ck.ob(rule, "tuklib_exit:status-not-silenced", ok, common.where(f),
+          "tuklib_exit: status = err_status does not depend on show_error" if ok else
+          "tuklib_exit(): `status = err_status` is reached only through a test of show_error: with -qq (show_error == 0) a failed "
+          "write or close of standard output leaves the exit status 0, so `xz -qq -c file > /full/disk && rm file` loses the data",
+          key="STATUS:tuklib_exit:status-not-silenced")
+
+
 def run(ck):
     ck.explanation = (
         "Finite-domain path-sensitive analysis of `success` through io_close (with each I/O primitive forced to "
@@ -874,8 +909,18 @@ def run(ck):
     check_sigset(ck, prog)
     check_msg_status(ck, prog)
     check_status(ck, prog)
+    check_tuklib_exit(ck, prog)
     check_perfile(ck, prog)
     check_exit_sticky(ck, prog)
     check_eof(ck, prog)
     check_nofatal(ck, prog)
     check_eintr_stdio(ck, prog)
+    # "the source is removed only after a complete and correct target was written": a block that is_sparse() wrongly calls
+    # all-zero is replaced by a hole, the target is silently wrong and the source is deleted (rule shared with C18)
+    from . import C18 as _C18
+    ck.rule("C17-SPARSE", "is_sparse() examines every byte of the output buffer before the block is replaced by a hole")
+    _C18.check_is_sparse(ck, prog, rule="C17-SPARSE")
+    # --no-sync / --no-sparse do what their names say: the sync-before-unlink clause holds unless --no-sync itself was given
+    from . import C19 as _C19
+    ck.rule("C17-OPTMAP", "parse_real: --no-sync and --no-sparse are dispatched through their own enumerators")
+    _C19.check_longopts_enum(ck, prog, rule="C17-OPTMAP", only=("no-sync", "no-sparse"))
